@@ -35,6 +35,44 @@ func init() {
 }
 
 func runC08(c *an.Ctx) {
+	// ---- R10: truncation keeps the OPT record
+	c.Floor("C08-R10", 1)
+	decide(c, "C08-R10", "dnsserver.truncate", an.DecideCfg{
+		Dom: an.Domain{"p0.MsgHdr.Truncated": an.Bools},
+		OnCall: func(it *an.Interp, name string, args []an.AV) (an.AV, bool) {
+			if strings.HasSuffix(name, "dns.Msg).Truncate") {
+				return an.Nil(), true
+			}
+			return an.AV{}, false
+		},
+		Expect: func(f an.Features, o an.AOutcome) string {
+			n := 0
+			for _, e := range o.Effects {
+				if e.Kind == "call" && strings.HasSuffix(e.Name, "dns.Msg).Truncate") {
+					n++
+					if strings.Join(e.Args, ",") != "p0,p1" {
+						return "the response truncated to the given size; got " + strings.Join(e.Args, ",")
+					}
+				}
+			}
+			if n != 1 {
+				return "exactly one Truncate"
+			}
+			st := o.Stores()
+			if !f.B("p0.MsgHdr.Truncated") {
+				if len(st) == 0 {
+					return ""
+				}
+				return "no change to a response that fits"
+			}
+			for _, s := range st {
+				if strings.HasPrefix(s, "p0.Extra") || strings.HasPrefix(s, "p0.Ns") || strings.HasPrefix(s, "p0.Question") || strings.HasPrefix(s, "p0.MsgHdr") {
+					return "the additional section (which holds the OPT record with the server's UDP size and the EDNS version), the authority section, the question and the header left as the library's truncation made them; got " + s
+				}
+			}
+			return ""
+		},
+	})
 	// ---- R9: per-client EDNS adjustments never land in a cached message
 	c.Floor("C08-R9", 3)
 	c07Caches(c, "C08-R9")
